@@ -149,8 +149,12 @@ func mkplan(sp *tokSpec, thorough bool) *plan {
 
 var stopProfile = func() {}
 
-// phase 0 = everything inside the quick-tier bounds, phase 1 = the deeper remainder (thorough only)
-var itemsTotal, itemsDone, itemsCut [2]atomic.Int64
+// phase 0 = everything inside the quick-tier bounds; phase k >= 1 (thorough only) = the strings of
+// exactly (quick bound + k) symbols of every sub-run, and for k = 1 also the additional code-point
+// contexts and code-point pairs. Phases are executed in this order.
+const maxPhases = 8
+
+var itemsTotal, itemsDone, itemsCut [maxPhases]atomic.Int64
 
 const cpChunk = 4096
 const pairChunk = 16
@@ -310,6 +314,9 @@ func main() {
 	} else {
 		r.SetDeadline(85 * time.Second)
 	}
+	if b, err := strconv.Atoi(os.Getenv("C20_BUDGET_S")); err == nil && b > 0 {
+		r.SetDeadline(time.Duration(b) * time.Second) // operator override of the internal time budget
+	}
 	var plans []*plan
 	for _, sp := range specs {
 		plans = append(plans, mkplan(sp, thorough))
@@ -336,19 +343,19 @@ func main() {
 			}
 		}
 	}
-	// phase 0: everything inside the quick bounds; phase 1 (thorough): the deeper remainder
+	// phase 0: everything inside the quick bounds; phases 1.. (thorough): one more symbol each
 	var items []string
 	addItem := func(phase int, f string, a ...any) {
 		items = append(items, fmt.Sprintf(f, a...)+"|"+strconv.Itoa(phase))
 		itemsTotal[phase].Add(1)
 	}
-	for phase := 0; phase < 2; phase++ {
+	for phase := 0; phase < maxPhases; phase++ {
 		for pi, p := range plans {
 			for si, s := range p.subs {
 				lo, hi := s.plen-1, s.qLen
-				if phase == 1 {
-					lo, hi = s.qLen, s.maxLen
-					if hi <= lo {
+				if phase > 0 {
+					lo, hi = s.qLen+phase-1, s.qLen+phase
+					if hi > s.maxLen {
 						continue
 					}
 				}
@@ -378,6 +385,9 @@ func main() {
 				}
 			}
 		}
+		if phase > 1 {
+			continue
+		}
 		for pi, p := range plans {
 			from, to := 0, p.nqCtx
 			if phase == 1 {
@@ -404,17 +414,37 @@ func main() {
 	}
 	r.Parallel(0, items, func(item string, sub *evid.Run) { work(plans, item, sub) })
 
-	progress := map[string]any{}
-	for ph, name := range []string{"within_quick_bounds", "deeper_than_quick_bounds"} {
-		progress[name] = map[string]int64{"work_items": itemsTotal[ph].Load(), "completed": itemsDone[ph].Load(), "cut_by_time_budget": itemsCut[ph].Load()}
-	}
-	r.Extra("work_items", progress)
-	if c0, c1 := itemsCut[0].Load(), itemsCut[1].Load(); c0+c1 > 0 {
-		if c0 == 0 {
-			r.NotExhaustive(fmt.Sprintf("internal time budget reached: every case inside the quick-tier bounds was enumerated, but only %d of the %d deeper work items (sub-run prefixes / code-point chunks beyond the quick bounds) were completed; the cases/* counters give what was executed", itemsDone[1].Load(), itemsTotal[1].Load()))
-		} else {
-			r.NotExhaustive(fmt.Sprintf("internal time budget reached: %d of the %d work items inside the quick-tier bounds and %d of the %d deeper ones were completed; the cases/* counters give what was executed", itemsDone[0].Load(), itemsTotal[0].Load(), itemsDone[1].Load(), itemsTotal[1].Load()))
+	progress := []map[string]any{}
+	firstCut := -1
+	var cutNote []string
+	for ph := 0; ph < maxPhases; ph++ {
+		if itemsTotal[ph].Load() == 0 {
+			continue
 		}
+		name := "within the quick-tier bounds"
+		if ph > 0 {
+			name = fmt.Sprintf("quick bound + %d symbols", ph)
+			if ph == 1 {
+				name += ", additional code-point contexts and pairs"
+			}
+		}
+		progress = append(progress, map[string]any{"phase": ph, "what": name, "work_items": itemsTotal[ph].Load(), "completed": itemsDone[ph].Load(), "cut_by_time_budget": itemsCut[ph].Load()})
+		if itemsCut[ph].Load() > 0 {
+			if firstCut < 0 {
+				firstCut = ph
+			}
+			cutNote = append(cutNote, fmt.Sprintf("phase %d (%s): %d of %d work items completed", ph, name, itemsDone[ph].Load(), itemsTotal[ph].Load()))
+		}
+	}
+	r.Extra("work_phases", progress)
+	if firstCut >= 0 {
+		done := "nothing was enumerated completely"
+		if firstCut == 1 {
+			done = "every case inside the quick-tier bounds was enumerated"
+		} else if firstCut > 1 {
+			done = fmt.Sprintf("every case inside the quick-tier bounds and all phases before phase %d were enumerated completely", firstCut)
+		}
+		r.NotExhaustive("internal time budget reached; " + done + "; incomplete: " + strings.Join(cutNote, "; ") + " (a work item is one sub-run prefix / code-point chunk; the cases/* counters give what was executed)")
 	}
 
 	reportFindings(r)
